@@ -23,9 +23,14 @@ def holo(bravais):
     return _holo_cache[key]
 
 
+ORIGIN_MOVES = [(0.5, 0.5, 0.5), (0.5, 0, 0), (0, 0, 0.5), (0.5, 0.5, 0), (0.25, 0.25, 0.25), (0, 0.5, 0.5), (0, 0.5, 0), (1 / 3, 2 / 3, 0),
+                (0.5, 0, 0.5), (0, 0, 0.25), (1 / 3, 2 / 3, 0.5), (0.25, 0.25, 0.75)]
+
+
 def work(job):
     """job = (sg, stream, npres, letters, max_atoms, mode) -> list of records (one per presentation)"""
-    sg, stream, npres, letters, max_atoms, mode = job
+    sg, stream, npres, letters, max_atoms, mode = job[:6]
+    origin_moves = len(job) > 6 and job[6]
     if letters is None:
         c = symobs.find_crystal(sg, k0=stream * 20, max_atoms=max_atoms)
     else:
@@ -46,6 +51,15 @@ def work(job):
     for j in range(npres):
         if j == 0:
             at, pres = c["atoms"], {"p_index": 0, "as_generated": True}
+        elif origin_moves:
+            # the same crystal with its origin moved by a special fraction of the conventional cell: the translations by which
+            # the alternative origins of a space group differ (spglib then standardises in another setting and the analyzer
+            # has to bring the labelling back with a normalizer); nothing else changes
+            f = ORIGIN_MOVES[0 if j == 1 else 1 + (sg + stream + j) % (len(ORIGIN_MOVES) - 1)]
+            at = c["atoms"].copy()
+            at.translate(np.array(f, dtype=float) @ at.cell[:])
+            at.wrap()
+            pres = {"p_index": 0, "origin_move_24ths": [int(round(24 * x)) for x in f]}
         else:
             at, pres = crystals.present(c["atoms"], rng, p_index=(sg + stream + 3 * j) % len(crystals.PRESENT_P), unwrap=bool(j % 2 == 0),
                                         primitive=bool(j % 3 == 1), origin_on_atom=bool(j == npres - 1 and j % 2 == 1))
